@@ -48,6 +48,10 @@ func (d *uintDecoder) parseUint(b []byte) (uint64, error) {
 	if maxDigit > pow10u64Len {
 		return 0, fmt.Errorf("invalid length of number")
 	}
+	if maxDigit == pow10u64Len && string(b) > "18446744073709551615" {
+		// only a literal with the maximum number of digits can exceed the uint64 range
+		return 0, fmt.Errorf("value out of range")
+	}
 	sum := uint64(0)
 	for i := 0; i < maxDigit; i++ {
 		c := uint64(b[i]) - 48
